@@ -20,7 +20,12 @@ RULE = ' Counting: evaluations = every executed call; distinct_nontrivial = dist
 def key_of(step, clause):
     a = step['a']
     if step['op'] == 'measured':
-        return 'Flash:measured:%s,%s,%s:%s' % (a['family'], 'ideal' if a['ideal'] else 'gamma', a['kind'], clause)
+        kind = a['kind']
+        if kind in ('TH', 'TS'):
+            vol = [i for i in a['ids'] if i not in ('N2', 'Glucose')]
+            kind += ',single' if len(vol) == 1 else ',multi'
+            kind += '+solute' if 'Glucose' in a['ids'] else ''
+        return 'Flash:measured:%s,%s,%s:%s' % (a['family'], 'ideal' if a['ideal'] else 'gamma', kind, clause)
     return 'Flash:%s:%s%s:%s' % (step['op'], a.get('region', ''), ',again' if a.get('again') else '', clause)
 
 
@@ -50,9 +55,15 @@ def measured_case(seed):
         comp['Glucose'] = 0.01 * rng.random()
     f = 10 ** rng.uniform(-1, 2)
     comp = {i: v * f for i, v in comp.items()}
-    kind = rng.choice(['TP', 'TP', 'TV', 'PV', 'PH', 'PS'])
+    kind = rng.choice(['TP', 'TP', 'TV', 'PV', 'PH', 'PS', 'TP', 'TP', 'TV', 'PV', 'PH', 'PS', 'TH', 'TS', 'xy', 'xy', 'xy'])
+    if kind == 'xy':
+        kind = rng.choice(['Tx', 'Ty', 'Px', 'Py'])
+        comp = {i: comp[i] for i in sorted(comp)[:2]} if len([i for i in comp if i not in ('N2', 'Glucose')]) >= 2 else comp
+        comp = {i: v for i, v in comp.items() if i not in ('N2', 'Glucose')}
+        if len(comp) != 2:
+            kind = 'TP'
     obs = df.measured(fam, ideal, comp, kind, rng.random(), rng.random(), rng.choice([1e-3, 50., 3.]))
-    return dict(op='measured', a=dict(family=fam, ideal=ideal, kind=kind, ids=sorted(comp), tol=1000, ftol=100000, w=[0] * n, T=1, P=1),
+    return dict(op='measured', a=dict(family=fam, ideal=ideal, kind=kind, ids=sorted(comp), tol=1000, hstol=100000 if kind in ('TH', 'TS') else 1000, ftol=100000, w=[0] * n, T=1, P=1),
                 post=dict(w=[0] * n, c=[1, 1]), obs=obs, job=['measured_case', seed])
 
 
@@ -83,13 +94,13 @@ def run(ctx):
     n = len(df.A)
     zero = dict(w=[0] * n, c=[1, 1])
     jobs = [('%d:x%d' % (ctx.seed, k),) for k in range(300 if quick else 10000)]
-    steps = par.pmap(exact_case, jobs) + par.pmap(measured_case, [('%d:m%d' % (ctx.seed, k),) for k in range(120 if quick else 4000)])
+    steps = par.pmap(exact_case, jobs) + par.pmap(measured_case, [('%d:m%d' % (ctx.seed, k),) for k in range(600 if quick else 8000)])
     per = 40
     traces = [dict(id='F%d' % i, mode='fan', init=zero, steps=steps[i * per:(i + 1) * per]) for i in range((len(steps) + per - 1) // per)]
     defs, cfgc = df.tla_constants()
     cases = []
     v = tlc.validate_traces('Flash', defs, cfgc, traces, procs=16)
-    n_ok, per_op, n_ooc = 0, {}, 0
+    n_ok, per_op, n_ooc, n_refused = 0, {}, 0, 0
     for t in traces:
         x = v[t['id']]
         bad = dict(x['stepfail'])
@@ -99,6 +110,8 @@ def run(ctx):
             if l in bad:
                 ctx.violation(key_of(s, bad[l]), '%s %r: %s obs=%r' % (s['op'], s['a'], bad[l], s['obs']),
                               dict(kind='job', func='replay_exact' if s['job'][0] == 'exact_case' else 'replay_measured', args=[s['job'][1]], clause=bad[l]))
+            elif l in ooc and s['op'] == 'measured':
+                n_refused += 1          # a specification the library refused (not judged)
             elif l in ooc:
                 n_ooc += 1
             else:
@@ -107,7 +120,7 @@ def run(ctx):
                 per_op[name] = per_op.get(name, 0) + 1
     if n_ooc:
         raise tlc.MachineryError('%d proposals were rejected by the specification (the driver must only propose exact solutions)' % n_ooc)
-    cov = dict(states=r.distinct, transitions=r.generated, traces_validated_against_impl=len(traces), steps_validated_in_contract=n_ok,
+    cov = dict(states=r.distinct, transitions=r.generated, traces_validated_against_impl=len(traces), steps_validated_in_contract=n_ok, measured_specifications_refused_by_the_library=n_refused,
                per_operation_in_contract_steps=per_op, exhaustive=False, mc_exhaustive_for_cfg=True, samples=[dict(op=steps[0]['op'], a=steps[0]['a'])],
                rule='MC: for every feed of the grid and T / P ratio exactly one of all-liquid / all-vapour / two-phase holds, Rachford-Rice roots are solutions, '
                     'scale independence. Exact binding: TP flashes in all three regions and TV / PV flashes of synthetic ideal mixtures (1-5 chemicals, any '
